@@ -111,8 +111,8 @@ def family_units(families, archs, tables, only=None, sec=True, virt=False, tag='
             extra_split = []
             if os.environ.get('VERIF_TIER_ACTIVE', 'quick') == 'quick' and kw.get('mpu'):
                 # MPU-on units in the quick tier: the protection rules are the subject, the condition field is not --
-                # ARM rows run with cond = AL and Thumb rows outside IT blocks (C05 covers conditions), and the U bit is a
-                # case split (two units)
+                # ARM rows run with cond = AL and Thumb rows inside an AL IT block (C05 covers conditions), and the U bit is
+                # a case split (two units)
                 have = {n for k, n, w, v in E.items if k == 'f'}
                 fx = dict(kw.get('fix') or {})
                 if 'cond' in have and 'cond' not in fx:
@@ -120,8 +120,10 @@ def family_units(families, archs, tables, only=None, sec=True, virt=False, tag='
                     pin_tag += '/AL'
                 kw['fix'] = fx
                 if E.thumb and 'it' not in kw:
-                    kw['it'] = 'none'  # Thumb rows outside IT blocks (conditions inside blocks: C05 / C08)
-                    pin_tag += '/no-IT'
+                    # Thumb rows inside an IT block whose condition is AL (ITSTATE<7:5> = 111, the rest symbolic and
+                    # non-zero): the saved IT bits of an abort are observable, the condition never fails (C05 / C08)
+                    kw['it'] = 'block:7'
+                    pin_tag += '/IT-AL'
                 if 'U' in have and 'U' not in fx and name not in SPLIT:
                     extra_split = [('U', 2)]
             if kw.get('reg_values') == 'distinct' and name.startswith('Usad') and 'Rn' in {n for k, n, w, v in E.items
